@@ -627,6 +627,9 @@ class BackendZ3(Backend):
         if op_name == "ZeroExt":
             bv_size = z3.Z3_get_decl_int_parameter(ctx, decl, 0)
             return claripy.ZeroExt(bv_size, children[0])
+        if op_name == "__ne__" and num_args > 2:
+            # distinct(a, b, c, ...) is pairwise; claripy's != is binary
+            return claripy.And(*(a != b for i, a in enumerate(children) for b in children[i + 1 :]))
         if op_name == "RotateLeft":
             return claripy.RotateLeft(children[0], children[1])
         if op_name == "RotateRight":
@@ -1597,7 +1600,7 @@ op_map = {
     "Z3_OP_RA_WIDEN": None,
     "Z3_OP_RECURSIVE": None,
     "Z3_OP_REM": "__mod__",
-    "Z3_OP_REPEAT": "RepeatBitVec",
+    "Z3_OP_REPEAT": None,
     "Z3_OP_RE_COMPLEMENT": None,
     "Z3_OP_RE_CONCAT": None,
     "Z3_OP_RE_DERIVATIVE": None,
@@ -1875,7 +1878,7 @@ op_type_map = {
     "Z3_OP_RA_WIDEN": None,
     "Z3_OP_RECURSIVE": None,
     "Z3_OP_REM": None,
-    "Z3_OP_REPEAT": BV,
+    "Z3_OP_REPEAT": None,
     "Z3_OP_RE_COMPLEMENT": None,
     "Z3_OP_RE_CONCAT": None,
     "Z3_OP_RE_DERIVATIVE": None,
